@@ -354,7 +354,7 @@ def run_property(prop, subs, tier, workers=None, only=None):
     cov = {
         'evaluations': sum(p['points'] for p in per),
         'distinct_nontrivial': len(allobs),
-        'states': sum(p['states'] if p['engine'] == 'H' else p['points'] for p in per),
+        'states': sum(max(p['states'], p['points']) if p['engine'] == 'H' else p['points'] for p in per),
         'transitions': sum(p['calls'] for p in per),
         'traces_validated_against_impl': sum(p['comparisons'] for p in per),
         'exhaustive': all(p['exhaustive'] for p in per),
